@@ -323,6 +323,9 @@ pub fn run(ctx: &Ctx) -> (Stats, Spec) {
     let iters = ctx.tier.pick(300u64, 30_000u64);
     let parts = util::par_jobs(16, |job| random_job(ctx, job, iters));
     st.merge(crate::report::merge_all(parts));
+    if ctx.tier == crate::report::Tier::Thorough {
+        super::common::miri_tripwire(ctx, &mut st, 150);
+    }
     let spec = Spec {
         rule: "breadth-first over reference states: two sets sharing one environment, each (state pair, next operation) executed on fresh real sets via the shortest history reaching the state; then all memberships of both sets are read twice through contains() and the public bdd field is compared across the queries; plus random histories of length 5-64 [quick] / 5-504 [thorough] with b in 2..4. distinct = (state pair before the last operation, last operation, b); non-trivial = both sets neither empty nor the universe.".into(),
         assumptions: vec![
